@@ -390,6 +390,39 @@ func c17SizeThreading(p *load.Program, r *oblig.Report) {
 		})
 	}
 	r.RequireCount(rule, n, 1)
+	// the compressed batch of a v2 message set: what is taken off the remaining size is what the decompressor really
+	// pulled from the connection (the bound given to the limited reader minus what it has left), never the announced
+	// length: after a connection cut in the payload the codec may report a clean end of stream
+	mr := p.Func("", "(*messageSetReader).readMessageV2")
+	if mr == nil {
+		r.Lost(rule, "kafka.(*messageSetReader).readMessageV2")
+		return
+	}
+	var readFrom *ssa.Call
+	an.EachInstr(mr, func(ins ssa.Instruction) {
+		if c, ok := ins.(*ssa.Call); ok && c.Call.StaticCallee() != nil && an.ShortFunc(c.Call.StaticCallee()) == "(*bytes.Buffer).ReadFrom" {
+			readFrom = c
+		}
+	})
+	if readFrom == nil {
+		r.Lost(rule, "decompression (bytes.Buffer.ReadFrom) in kafka.(*messageSetReader).readMessageV2")
+		return
+	}
+	found, okN := "", false
+	an.EachInstr(mr, func(ins ssa.Instruction) {
+		st, ok := fieldStoreIs(ins, "readerStack", "remain")
+		if !ok || !an.Dominates(readFrom, st) {
+			return
+		}
+		if _, isSub := st.Val.(*ssa.BinOp); !isSub || found != "" {
+			return
+		}
+		found = clean(an.Shape(st.Val))
+		// … - (bound - int(<limited reader>.N))
+		okN = strings.Contains(found, ".N)") && strings.Contains(found, ".remain - (")
+	})
+	r.Check(okN, rule, "kafka.(*messageSetReader).readMessageV2 → a compressed batch is charged with the bytes actually read from the connection", p.Pos(readFrom.Pos()),
+		"r.remain -= batchRemain - int(limitReader.N)", found)
 }
 
 // c17Deadline: do() uses one deadline object for the request and for the wait.
